@@ -243,6 +243,9 @@ fn measure(c: &Case, n: usize) -> (isize, isize, u64) {
             // unit weights, or weighted inserts (constant fractional / integral weights, or mixed)
             // (also weights whose total stays subnormal, and weights of 1e300: the bound must not depend on their magnitude)
             let wmode = seed % 8;
+            // arithmetic on subnormal numbers is one to two orders of magnitude slower: shorter streams for those
+            // weights (still hundreds of times the capacity of the digest for the usual delta)
+            let n = if wmode == 5 || wmode == 7 { n.min(30_000) } else { n };
             for i in 0..n {
                 let x = (item(i) >> 11) as f64 / (1u64 << 53) as f64;
                 match wmode {
